@@ -194,6 +194,10 @@ fn payload_text(p: Box<dyn Any + Send>) -> String {
 }
 
 fn guard<R>(f: impl FnOnce() -> R) -> Result<R, String> {
+    // engine C: shuttle's panic hook treats every panic as a test failure and persists a
+    // schedule; panics we are about to catch (documented panics, stub panics) are expected
+    #[cfg(feature = "engine_c")]
+    let _quiet = crate::shuttle_mode::ExpectPanics::enter();
     catch_unwind(AssertUnwindSafe(f)).map_err(payload_text)
 }
 
@@ -1222,7 +1226,7 @@ macro_rules! probe2_min {
 
 /// The written-out instantiation matrix. Anything not listed is `Unsupported`
 /// (`supported()` mirrors this match and a self-test checks that they agree).
-thread_local! {
+crate::tls! {
     /// setter order for the build in progress on this thread (see `SlotCfg::build_order`)
     static BUILD_ORDER: std::cell::Cell<u8> = const { std::cell::Cell::new(0) };
 }
